@@ -1,4 +1,7 @@
 import AFProofs.Lemmas.Prior
+import AFProofs.Lemmas.PriorDbl
+import AFProofs.Lemmas.PriorRandom
+import AFProofs.Lemmas.DblArith
 
 /-!
 # C02 — priors map the unit interval monotonically onto their support
@@ -9,9 +12,13 @@ functions as parameters satisfying `Lawful` (inverse pairs, monotone, ranges –
 
 * quantile clauses: `*_quantile`, `value_is_declared_quantile`
 * monotone: `rawValue_monotone`, `valueFor_monotone`
-* inverted by the unit-value function: `unit_of_value`, `value_of_unit_*`
+* inverted by the unit-value function: `unit_of_value`, `value_of_unit_*` (log-uniform on its support:
+  `value_of_unit_logUniform_on_support`)
 * limits: `gate_sound`, `gate_ignore`, `gate_limit_iff`, `valueFor_in_limits`, `valueFor_limit_iff`
-* random draws: `random_in_limits`, `random_never_raises_gaussian` (exact arithmetic)
+* random draws: `random_in_limits`, `random_never_raises_{gaussian,uniform,logUniform,logGaussian}` (exact
+  arithmetic, each with its exact guard), `unit_limits_uniform`
+* doubles as data (`Dbl`): `round_monotone_on_doubles`, `round_monotone_exact`, `finishD_in_limits`,
+  `finishD_limit_iff`, `finishD_monotone`, `valueForD_monotone`
 * rounding of `UniformPrior.value_for`: full statement for the repaired code (`cfg.repaired = true`),
   `_partial` + refutation witnesses (on `Float`, by kernel evaluation) for the behaviour of the pinned commit.
 
@@ -259,6 +266,36 @@ theorem value_of_unit_logUniform (S : Special K) (h : Lawful S) (L U m s x : K) 
   have e : (S.log10 x - S.log10 L) / S.log10 (U / L) * S.log10 (U / L) + S.log10 L = S.log10 x := by grind
   rw [e, h.pow10_log10 x hx]
 
+/-- Log-uniform on its support, with the log-coordinate hypothesis narrowed to a single equation about the
+two limits (`hlog`: `log10 (U/L) = log10 U - log10 L`, true of the real logarithm): `value_for
+(unit_value_for x) = x` for every `L < x < U`. The strict monotonicity of `log10` this needs is derived from
+`Lawful` (inverse pair + monotone `10^x`). -/
+theorem value_of_unit_logUniform_on_support (S : Special K) (h : Lawful S) (L U m s x : K) (hL : 0 < L)
+    (hLx : L < x) (hxU : x < U) (hlog : S.log10 (U / L) = S.log10 U - S.log10 L) :
+    rawValueFor S ⟨.logUniform, L, U, m, s⟩ (unitValueFor S ⟨.logUniform, L, U, m, s⟩ x) = x := by
+  have hLU : L < U := by grind
+  have hx : 0 < x := by grind
+  have hs := logScale_pos S h L U hL hLU
+  have l1 := log10_strict_of_lawful S h L x hL hLx
+  have l2 := log10_strict_of_lawful S h x U hx hxU
+  have hne : S.log10 (U / L) ≠ 0 := by grind
+  have t0 : 0 < (S.log10 x - S.log10 L) / S.log10 (U / L) := by
+    have := div_le_div_right 0 (S.log10 x - S.log10 L) (S.log10 (U / L)) hs (by grind)
+    have : (S.log10 x - S.log10 L) / S.log10 (U / L) ≠ 0 := by
+      intro hz
+      have : S.log10 (U / L) * ((S.log10 x - S.log10 L) / S.log10 (U / L)) = S.log10 x - S.log10 L := by grind
+      grind
+    grind
+  have t1 : (S.log10 x - S.log10 L) / S.log10 (U / L) < 1 := by
+    have := div_le_div_right (S.log10 x - S.log10 L) (S.log10 (U / L)) (S.log10 (U / L)) hs (by grind)
+    have e1 : S.log10 (U / L) / S.log10 (U / L) = 1 := by grind
+    have : (S.log10 x - S.log10 L) / S.log10 (U / L) ≠ 1 := by
+      intro hz
+      have : S.log10 (U / L) * ((S.log10 x - S.log10 L) / S.log10 (U / L)) = S.log10 x - S.log10 L := by grind
+      grind
+    grind
+  exact value_of_unit_logUniform S h L U m s x hL hLU hx t0 t1
+
 /-! ## limits: a value inside the limits or the limit exception -/
 
 /-- `value_for` never silently returns an out-of-limit value (repaired code, every family, every special
@@ -377,6 +414,95 @@ theorem random_never_raises_gaussian (S : Special K) (h : Lawful S) (cfg : Cfg) 
     simp [this]
   simp only [hg]
 
+/-- The unit limits between which `Prior.random` draws, for the two uniform families: the clamp epsilon
+of `transform.ndtri` (1e-14) and its complement - not 0 and 1. -/
+theorem unit_limits_uniform (S : Special K) (h : Lawful S) (L U m s : K) (hLU : L < U) :
+    unitValueFor S ⟨.uniform, L, U, m, s⟩ L = S.eps ∧ unitValueFor S ⟨.uniform, L, U, m, s⟩ U = 1 - S.eps :=
+  unitLimits_uniform S h L U m s hLU
+
+/-- In exact arithmetic `UniformPrior.random(lo, hi)` never raises and returns a value inside the limits,
+whenever the requested unit interval meets `[eps, 1 - eps]` (guard: `lo ≤ 1 - eps`, `eps ≤ hi`, `lo ≤ hi`;
+`eps ≤ 1 - eps` holds for the code's 1e-14). -/
+theorem random_never_raises_uniform (S : Special K) (h : Lawful S) (L U m s lo hi r : K)
+    (hLU : L < U) (heps : S.eps ≤ 1 - S.eps) (hr0 : 0 ≤ r) (hr1 : r ≤ 1)
+    (hlo : lo ≤ 1 - S.eps) (hhi : S.eps ≤ hi) (hlohi : lo ≤ hi) :
+    ∃ v, randomDraw S { repaired := true } ⟨.uniform, L, U, m, s⟩ lo hi r = .ok v ∧ L ≤ v ∧ v ≤ U := by
+  obtain ⟨ea, eb⟩ := unitLimits_uniform S h L U m s hLU
+  have hw := randomUnit_between lo hi S.eps (1 - S.eps) r heps hlo hhi hlohi hr0 hr1
+  have p0 := h.eps_pos
+  have hin := uniform_raw_in_limits S h L U m s _ hLU (by grind) (by grind : randomUnit lo hi S.eps (1 - S.eps) r < 1)
+  obtain ⟨v, hv⟩ := valueFor_ok_of_in_limits S { repaired := true } ⟨.uniform, L, U, m, s⟩ _ hin
+  have hd : randomDraw S { repaired := true } ⟨.uniform, L, U, m, s⟩ lo hi r = .ok v := by
+    unfold randomDraw
+    simp only [ea, eb]
+    exact hv
+  exact ⟨v, hd, random_in_limits S ⟨.uniform, L, U, m, s⟩ (by grind) lo hi r v hd⟩
+
+/-- In exact arithmetic `LogUniformPrior.random(lo, hi)` never raises, given that `log10` turns the
+quotient of the two limits into the difference (`hlog`, true of the real logarithm - the one law about
+`log10` that is not part of `Lawful`), under the same guard as the uniform prior. -/
+theorem random_never_raises_logUniform (S : Special K) (h : Lawful S) (cfg : Cfg) (L U m s lo hi r : K)
+    (hL : 0 < L) (hLU : L < U) (hlog : S.log10 (U / L) = S.log10 U - S.log10 L)
+    (heps : S.eps ≤ 1 - S.eps) (hr0 : 0 ≤ r) (hr1 : r ≤ 1)
+    (hlo : lo ≤ 1 - S.eps) (hhi : S.eps ≤ hi) (hlohi : lo ≤ hi) :
+    ∃ v, randomDraw S cfg ⟨.logUniform, L, U, m, s⟩ lo hi r = .ok v ∧ L ≤ v ∧ v ≤ U := by
+  obtain ⟨ea, eb⟩ := unitLimits_logUniform S h L U m s hL hLU hlog
+  have hw := randomUnit_between lo hi S.eps (1 - S.eps) r heps hlo hhi hlohi hr0 hr1
+  have p0 := h.eps_pos
+  have hin := logUniform_raw_in_limits S h L U m s _ hL hLU hlog (by grind)
+    (by grind : randomUnit lo hi S.eps (1 - S.eps) r < 1)
+  obtain ⟨v, hv⟩ := valueFor_ok_of_in_limits S cfg ⟨.logUniform, L, U, m, s⟩ _ hin
+  have hd : randomDraw S cfg ⟨.logUniform, L, U, m, s⟩ lo hi r = .ok v := by
+    unfold randomDraw
+    simp only [ea, eb]
+    exact hv
+  exact ⟨v, hd, valueFor_in_limits_nonuniform S cfg ⟨.logUniform, L, U, m, s⟩ (by simp) _ v hv⟩
+
+/-- In exact arithmetic `LogGaussianPrior.random(lo, hi)` never raises for a positive lower limit, whenever
+the requested unit interval meets the interval between the unit limits. (A lower limit 0 has unit limit
+`Φ(log 0) = Φ(-∞) = 0`, which only exists on doubles; on doubles the statement fails for limits far in a
+tail - the same known finding as for the Gaussian prior.) -/
+theorem random_never_raises_logGaussian (S : Special K) (h : Lawful S) (cfg : Cfg) (L U m s lo hi r : K)
+    (hL : 0 < L) (hLU : L < U) (hs : 0 < s) (hr0 : 0 ≤ r) (hr1 : r ≤ 1)
+    (hlo : lo ≤ unitValueFor S ⟨.logGaussian, L, U, m, s⟩ U)
+    (hhi : unitValueFor S ⟨.logGaussian, L, U, m, s⟩ L ≤ hi) (hlohi : lo ≤ hi) :
+    ∃ v, randomDraw S cfg ⟨.logGaussian, L, U, m, s⟩ lo hi r = .ok v ∧ L ≤ v ∧ v ≤ U := by
+  have hsne : s ≠ 0 := by grind
+  have hU0 : 0 < U := by grind
+  have hll := log_mono_of_lawful S h L U hL (by grind)
+  have hab : S.phi ((S.log L - m) / s) ≤ S.phi ((S.log U - m) / s) :=
+    h.phi_mono _ _ (div_le_div_right _ _ s hs (by grind))
+  simp only [unit_logGaussian] at hlo hhi
+  obtain ⟨hwa, hwb⟩ := randomUnit_between lo hi _ _ r hab hlo hhi hlohi hr0 hr1
+  generalize hw : randomUnit lo hi (S.phi ((S.log L - m) / s)) (S.phi ((S.log U - m) / s)) r = w at hwa hwb
+  have hw0 : 0 < w := by have := h.phi_pos ((S.log L - m) / s); grind
+  have hw1 : w < 1 := by have := h.phi_lt_one ((S.log U - m) / s); grind
+  have hzL := h.phiInv_mono _ _ (h.phi_pos _) hwa hw1
+  have hzU := h.phiInv_mono _ _ hw0 hwb (h.phi_lt_one _)
+  rw [h.phiInv_phi] at hzL hzU
+  have hlL : S.log L ≤ m + s * S.phiInv w := by
+    have := mul_le_mul_left' _ _ s (by grind) hzL
+    have e : s * ((S.log L - m) / s) = S.log L - m := by grind
+    grind
+  have hlU : m + s * S.phiInv w ≤ S.log U := by
+    have := mul_le_mul_left' _ _ s (by grind) hzU
+    have e : s * ((S.log U - m) / s) = S.log U - m := by grind
+    grind
+  have hin : L ≤ rawValueFor S ⟨.logGaussian, L, U, m, s⟩ w ∧ rawValueFor S ⟨.logGaussian, L, U, m, s⟩ w ≤ U := by
+    rw [raw_logGaussian]
+    have a := h.exp_mono _ _ hlL
+    have b := h.exp_mono _ _ hlU
+    rw [h.exp_log L hL] at a
+    rw [h.exp_log U hU0] at b
+    exact ⟨a, b⟩
+  obtain ⟨v, hv⟩ := valueFor_ok_of_in_limits S cfg ⟨.logGaussian, L, U, m, s⟩ w hin
+  have hd : randomDraw S cfg ⟨.logGaussian, L, U, m, s⟩ lo hi r = .ok v := by
+    unfold randomDraw
+    simp only [unit_logGaussian]
+    rw [hw]
+    exact hv
+  exact ⟨v, hd, valueFor_in_limits_nonuniform S cfg ⟨.logGaussian, L, U, m, s⟩ (by simp) _ v hv⟩
+
 end Field
 
 /-- the gate theorems instantiate at the driver's own instance (`Float`, `floatSpecial`) -/
@@ -412,6 +538,26 @@ example : ∃ v, randomDraw ratSpecial {} ⟨.gaussian, 0, 2, 1, 2⟩ 0 1 (1 / 3
     (by grind) (by grind) (by grind) (by grind)
     (by rw [unit_gaussian]; exact Std.le_of_lt (ratSpecial_lawful.phi_pos _))
     (by rw [unit_gaussian]; exact Std.le_of_lt (ratSpecial_lawful.phi_lt_one _)) (by grind)
+
+example : ∃ v, randomDraw ratSpecial {} ⟨.uniform, 2, 5, 0, 0⟩ 0 1 (1 / 3) = .ok v ∧ (2 : Rat) ≤ v ∧ v ≤ 5 :=
+  random_never_raises_uniform ratSpecial ratSpecial_lawful 2 5 0 0 0 1 (1 / 3)
+    (by grind) (by decide +kernel) (by grind) (by grind) (by decide +kernel) (by decide +kernel) (by grind)
+
+/-- the log-coordinate hypothesis is met by the closed-form instance for a lower limit 1 -/
+example : ∃ v, randomDraw ratSpecial {} ⟨.logUniform, 1, 10, 0, 0⟩ 0 1 (2 / 3) = .ok v ∧ (1 : Rat) ≤ v ∧ v ≤ 10 :=
+  random_never_raises_logUniform ratSpecial ratSpecial_lawful {} 1 10 0 0 0 1 (2 / 3)
+    (by grind) (by grind) (by decide +kernel) (by decide +kernel) (by grind) (by grind)
+    (by decide +kernel) (by decide +kernel) (by grind)
+
+example : ∃ v, randomDraw ratSpecial {} ⟨.logGaussian, 1 / 2, 8, 1, 2⟩ 0 1 (1 / 3) = .ok v ∧ (1 / 2 : Rat) ≤ v ∧ v ≤ 8 :=
+  random_never_raises_logGaussian ratSpecial ratSpecial_lawful {} (1 / 2) 8 1 2 0 1 (1 / 3)
+    (by grind) (by grind) (by grind) (by grind) (by grind)
+    (by rw [unit_logGaussian]; exact Std.le_of_lt (ratSpecial_lawful.phi_pos _))
+    (by rw [unit_logGaussian]; exact Std.le_of_lt (ratSpecial_lawful.phi_lt_one _)) (by grind)
+
+example : rawValueFor ratSpecial ⟨.logUniform, 1, 10, 0, 0⟩ (unitValueFor ratSpecial ⟨.logUniform, 1, 10, 0, 0⟩ 3) = 3 :=
+  value_of_unit_logUniform_on_support ratSpecial ratSpecial_lawful 1 10 0 0 3 (by grind) (by grind) (by grind)
+    (by decide +kernel)
 
 /-! ## rounding of `UniformPrior.value_for` on doubles
 
@@ -475,8 +621,8 @@ example : decimalPlaces (Float.ofBits 0x3FE0000000000000) = 15 := by decide +ker
 
 `pyRound n x` (the repaired code's `round(float, n)`) rounds the exact rational `m·10ⁿ / 2^(-e)` of the
 double with `divRoundHalfEven` and converts `k / 10ⁿ` to the nearest double. The integer step is monotone,
-within half a unit of the exact quotient and fixes the decimal grid; that the conversion to the nearest
-double preserves this is validated bit-exactly against CPython by the harness on every run (not a theorem). -/
+within half a unit of the exact quotient and fixes the decimal grid; the whole function is proved
+non-decreasing on doubles below (`round_monotone_on_doubles`). -/
 
 theorem rounding_step_monotone (a b d : Nat) (hd : 0 < d) (h : a ≤ b) :
     divRoundHalfEven a d ≤ divRoundHalfEven b d :=
@@ -507,5 +653,405 @@ theorem uniform_legacy_refuted_tiny_range :
       w1 < v ∧ v < w2) := by
   refine ⟨by decide +kernel, by decide +kernel, by decide +kernel, ?_⟩
   exact ⟨Float.ofBits 0x3CDB05876E5B0120, by decide +kernel⟩
+
+/-! ## the float layer as data: limit gate, exact rounding and clamp on doubles
+
+`Float` comparisons are opaque to the logic, so the statements above say nothing for-all about
+`finish floatSpecial …`. `AFModel/PriorDbl.lean` models a double as data (`Dbl`: sign + magnitude bits, IEEE
+order incl. NaN, ±0, ±inf) and the part of `value_for` after `message.value_for` on it (`finishD`: the same
+generic `gate` and `clamp`, and `pyRoundD` = CPython `round(x, n)`, through which the `Float` rounding
+`pyRound` is *defined*). The driver runs `finishD` beside `finish` on every raw value and the harness
+compares both with the real code bit for bit. All statements below are for every double, every number of
+places and all limits; nothing about special functions is assumed except where stated. -/
+
+/-- the rounding the driver's `Float` instance uses is `pyRoundD` between the bit casts -/
+theorem float_round_is_pyRoundD (n : Nat) (x : Float) :
+    floatSpecial.round n x = (pyRoundD n (Dbl.ofFloat x)).toFloat := rfl
+
+/-- The order on `Dbl` is the order of the exact values (in units of `2^-1074`) on finite doubles. -/
+theorem double_order_is_exact_order (a b : Dbl) (ha : a.isFinite = true) (hb : b.isFinite = true) :
+    a ≤ b ↔ a.exact ≤ b.exact :=
+  Dbl.le_iff_exact a b ha hb
+
+/-- CPython's `round(x, n)` - exact half-even rounding of the binary value to `n` decimals, then the
+nearest double - is non-decreasing on doubles (NaN excluded by `a ≤ b`; ±0 and ±inf included). -/
+theorem round_monotone_on_doubles (n : Nat) (a b : Dbl) (h : a ≤ b) : pyRoundD n a ≤ pyRoundD n b :=
+  pyRoundD_mono n a b h
+
+/-- The same on the exact rational values of finite doubles; the rounded values are finite: the exact
+rounding cannot overflow (numpy's multiply-rint-divide of the pinned commit did:
+`uniform_legacy_refuted_overflow`). -/
+theorem round_monotone_exact (n : Nat) (a b : Dbl) (ha : a.isFinite = true) (hb : b.isFinite = true)
+    (h : a.exact ≤ b.exact) :
+    (pyRoundD n a).isFinite = true ∧ (pyRoundD n b).isFinite = true ∧
+      (pyRoundD n a).exact ≤ (pyRoundD n b).exact := by
+  have fa := pyRoundD_finite n a ha
+  have fb := pyRoundD_finite n b hb
+  refine ⟨fa, fb, ?_⟩
+  rw [← Dbl.le_iff_exact _ _ fa fb]
+  exact pyRoundD_mono n a b ((Dbl.le_iff_exact a b ha hb).mpr h)
+
+/-- Never an out-of-limit value (doubles): whatever `value_for` returns without `ignore_prior_limits` lies
+inside the limits - after rounding and clamp for the uniform prior - and in particular is not NaN. -/
+theorem finishD_in_limits (uniform : Bool) (places : Nat) (L U raw v : Dbl)
+    (h : finishD uniform false places L U raw = .ok v) : L ≤ v ∧ v ≤ U := by
+  unfold finishD at h
+  split at h
+  · cases h
+  · rename_i w hg
+    obtain ⟨hw, hL, hU⟩ := (gate_false_ok_iff L U raw w).mp hg
+    subst hw
+    split at h
+    · cases h
+      simp only [uniformPostD, Bool.false_eq_true, if_false]
+      exact clampD_mem L U _ (Dbl.le_trans L w U hL hU) (pyRoundD_notNaN places w hL.2.1)
+    · cases h
+      exact ⟨hL, hU⟩
+
+/-- The limit exception is raised exactly when the mapped value is outside the limits (or NaN). -/
+theorem finishD_limit_iff (uniform : Bool) (places : Nat) (L U raw : Dbl) :
+    finishD uniform false places L U raw = .limit ↔ ¬ (L ≤ raw ∧ raw ≤ U) := by
+  rw [← gate_false_limit_iff]
+  unfold finishD
+  split
+  · rename_i hg
+    simp [hg]
+  · rename_i w hg
+    rw [hg]
+    constructor
+    · intro hh
+      split at hh <;> cases hh
+    · intro hh
+      cases hh
+
+/-- With limits explicitly ignored a value is always returned. -/
+theorem finishD_ignore (uniform : Bool) (places : Nat) (L U raw : Dbl) :
+    ∃ v, finishD uniform true places L U raw = .ok v := by
+  unfold finishD
+  rw [gate_true_ok]
+  simp only
+  split <;> exact ⟨_, rfl⟩
+
+/-- Gate, rounding and clamp are non-decreasing in the raw value: on doubles, for every number of places,
+with or without `ignore_prior_limits`. -/
+theorem finishD_monotone (uniform ignore : Bool) (places : Nat) (L U raw raw2 a b : Dbl) (h : raw ≤ raw2)
+    (ha : finishD uniform ignore places L U raw = .ok a)
+    (hb : finishD uniform ignore places L U raw2 = .ok b) : a ≤ b := by
+  unfold finishD at ha hb
+  split at ha
+  · cases ha
+  · rename_i wa hga
+    split at hb
+    · cases hb
+    · rename_i wb hgb
+      have ea := gate_ok _ _ _ _ _ hga
+      have eb := gate_ok _ _ _ _ _ hgb
+      subst ea eb
+      cases uniform
+      · simp only [Bool.false_eq_true, if_false] at ha hb
+        cases ha
+        cases hb
+        exact h
+      · simp only [if_true] at ha hb
+        cases ha
+        cases hb
+        have hr := pyRoundD_mono places _ _ h
+        cases ignore
+        · simp only [uniformPostD, Bool.false_eq_true, if_false]
+          obtain ⟨_, hL, hU⟩ := (gate_false_ok_iff L U wa wa).mp hga
+          exact clampD_mono L U _ _ (Dbl.le_trans L wa U hL hU) hr
+        · simpa only [uniformPostD, if_true] using hr
+
+/-- The float-level `value_for` pipeline (raw quantile → round → limit gate → clamp) is non-decreasing in
+the unit value whenever the raw quantile `q` (scipy/libm: `erfinv`, `ndtr`, `log10`, `power`, `exp` and the
+shift/scale arithmetic) is - the only hypothesis left about the double-precision layer. -/
+theorem valueForD_monotone (q : Dbl → Dbl) (hq : ∀ u v, u ≤ v → q u ≤ q v)
+    (uniform ignore : Bool) (places : Nat) (L U u v a b : Dbl) (huv : u ≤ v)
+    (ha : finishD uniform ignore places L U (q u) = .ok a)
+    (hb : finishD uniform ignore places L U (q v) = .ok b) : a ≤ b :=
+  finishD_monotone uniform ignore places L U (q u) (q v) a b (hq u v huv) ha hb
+
+/-- `0.1 + 2^-56`-ish witnesses: the doubles `0.100000000000004`, `0.2` as data -/
+def dL : Dbl := Dbl.ofBits 0x3FB9999999999ABA
+def dU : Dbl := Dbl.ofBits 0x3FC999999999999A
+
+/-- non-vacuity: the off-grid lower limit (the pinned commit returned `0.1 < L` here) is rounded to 15
+places and returned inside the limits; a value above the upper limit raises -/
+example : finishD true false 15 dL dU dL = .ok dL ∧ dL ≤ dL ∧ dL ≤ dU := by decide +kernel
+example : finishD true false 15 dL dU (Dbl.ofBits 0x3FD0000000000000) = .limit := by decide +kernel
+example : dL ≤ dU ∧ pyRoundD 1 dL ≤ pyRoundD 1 dU ∧ (pyRoundD 1 dU).toBits = 0x3FC999999999999A :=
+  ⟨by decide +kernel, round_monotone_on_doubles 1 dL dU (by decide +kernel), by decide +kernel⟩
+/-- NaN never passes the gate; `-0.0` and `0.0` compare equal -/
+example : finishD false false 14 dL dU (Dbl.ofBits 0x7FF8000000000000) = .limit := by decide +kernel
+example : Dbl.ofBits 0x8000000000000000 ≤ Dbl.ofBits 0 ∧ Dbl.ofBits 0 ≤ Dbl.ofBits 0x8000000000000000 := by
+  decide +kernel
+/-- the model's rounding on `Float` and on data agree on the witness (`round(0.100000000000004, 14)`) -/
+example : (pyRound 14 wL).toBits = (pyRoundD 14 dL).toBits.toUInt64 := by decide +kernel
+
+/-! ## the shift/scale arithmetic of the transform stacks on doubles
+
+`AFModel/DblArith.lean` computes IEEE `+ − × ÷` (round to nearest even) on `Dbl` exactly; with them the
+arithmetic around the special functions is inside the logic: `argD u = 1 - 2.0 * (1.0 - u)` (what
+`NormalMessage.value_for` hands to `erfinv`), `rawGaussianD = mean + (sigma * sqrt(2) * inv)`,
+`rawUniformD = t * (U - L) + L`. They are compared bit for bit with Python's float arithmetic and with
+`message.value_for` (given scipy's intermediate values) on every run. What remains a hypothesis is only
+that scipy's `erfinv` (on `[-1, 1]`) and `ndtr` are non-decreasing. -/
+
+/-- `u ↦ 1 - 2.0 * (1.0 - u)` is non-decreasing on the unit interval of doubles and maps it into `[-1, 1]`
+(so `erfinv` is only ever called inside its domain). -/
+theorem argD_monotone (u v : Dbl) (hu0 : Dbl.zero ≤ u) (huv : u ≤ v) (hv1 : v ≤ Dbl.one) :
+    argD u ≤ argD v ∧ Dbl.neg' Dbl.one ≤ argD u ∧ argD v ≤ Dbl.one := by
+  have f1 : Dbl.one.isFinite = true := by decide +kernel
+  have t2 : Dbl.two.mag < infMag := by decide +kernel
+  have t0 : 0 < Dbl.two.mag := by decide +kernel
+  have tn : Dbl.two.neg = false := rfl
+  have hu1 : u ≤ Dbl.one := Dbl.le_trans _ _ _ huv hv1
+  have hv0 : Dbl.zero ≤ v := Dbl.le_trans _ _ _ hu0 huv
+  -- s = 1.0 - x
+  have s_anti := Dbl.add_mono_right Dbl.one _ _ f1 (Dbl.neg_anti u v huv)
+  have s_hi := Dbl.add_mono_right Dbl.one _ _ f1 (Dbl.neg_anti Dbl.zero u hu0)
+  have s_lo := Dbl.add_mono_right Dbl.one _ _ f1 (Dbl.neg_anti v Dbl.one hv1)
+  have e1 : Dbl.add Dbl.one (Dbl.neg' Dbl.zero) = Dbl.one := by decide +kernel
+  have e0 : Dbl.add Dbl.one (Dbl.neg' Dbl.one) = Dbl.zero := by decide +kernel
+  rw [e1] at s_hi
+  rw [e0] at s_lo
+  -- m = 2.0 * s
+  have m_anti := Dbl.mul_pos_left_mono Dbl.two _ _ t2 t0 tn s_anti
+  have m_hi := Dbl.mul_pos_left_mono Dbl.two _ _ t2 t0 tn s_hi
+  have m_lo := Dbl.mul_pos_left_mono Dbl.two _ _ t2 t0 tn s_lo
+  have e2 : Dbl.mul Dbl.two Dbl.one = Dbl.two := by decide +kernel
+  have e3 : Dbl.mul Dbl.two Dbl.zero = Dbl.zero := by decide +kernel
+  rw [e2] at m_hi
+  rw [e3] at m_lo
+  -- 1 - m
+  have r := Dbl.add_mono_right Dbl.one _ _ f1 (Dbl.neg_anti _ _ m_anti)
+  have r_lo := Dbl.add_mono_right Dbl.one _ _ f1 (Dbl.neg_anti _ _ m_hi)
+  have r_hi := Dbl.add_mono_right Dbl.one _ _ f1 (Dbl.neg_anti _ _ m_lo)
+  have e4 : Dbl.add Dbl.one (Dbl.neg' Dbl.two) = Dbl.neg' Dbl.one := by decide +kernel
+  rw [e4] at r_lo
+  rw [e1] at r_hi
+  exact ⟨r, r_lo, r_hi⟩
+
+/-- `mean + (sigma * sqrt(2) * inv)` is non-decreasing in `inv` (±inf included), for a finite mean and a
+finite positive `sigma * sqrt(2)`. -/
+theorem rawGaussianD_monotone (mean sigma inv inv2 : Dbl) (hm : mean.isFinite = true)
+    (hc : (Dbl.mul sigma Dbl.sqrt2).isFinite = true) (hc0 : 0 < (Dbl.mul sigma Dbl.sqrt2).mag)
+    (hcn : (Dbl.mul sigma Dbl.sqrt2).neg = false) (h : inv ≤ inv2) :
+    rawGaussianD mean sigma inv ≤ rawGaussianD mean sigma inv2 := by
+  unfold rawGaussianD
+  exact Dbl.add_mono_right mean _ _ hm
+    (Dbl.mul_pos_left_mono _ inv inv2 ((Dbl.finite_iff _).mp hc) hc0 hcn h)
+
+/-- `t * (U - L) + L` is non-decreasing in `t` for finite limits `L < U` whose difference does not
+overflow (`U - L > 0` is proved, not assumed: distinct doubles have a non-zero difference). -/
+theorem rawUniformD_monotone (L U t t2 : Dbl) (hL : L.isFinite = true) (hU : U.isFinite = true)
+    (hLU : L < U) (hw : (Dbl.sub U L).isFinite = true) (h : t ≤ t2) :
+    rawUniformD t L U ≤ rawUniformD t2 L U := by
+  obtain ⟨wn, w0⟩ := Dbl.sub_pos L U hL hU hLU
+  unfold rawUniformD
+  exact Dbl.add_mono_left _ _ L hL
+    (Dbl.mul_pos_right_mono _ t t2 ((Dbl.finite_iff _).mp hw) w0 wn h)
+
+/-- `GaussianPrior.value_for` on doubles, end to end (argument arithmetic → `erfinv` → mean/sigma
+arithmetic → limit gate): non-decreasing in the unit value on `[0, 1]`, the only hypothesis being that
+scipy's `erfinv` is non-decreasing on `[-1, 1]`. -/
+theorem gaussian_value_for_monotone_on_doubles (erfinv : Dbl → Dbl)
+    (herf : ∀ x y, Dbl.neg' Dbl.one ≤ x → x ≤ y → y ≤ Dbl.one → erfinv x ≤ erfinv y)
+    (mean sigma L U : Dbl) (hm : mean.isFinite = true)
+    (hc : (Dbl.mul sigma Dbl.sqrt2).isFinite = true) (hc0 : 0 < (Dbl.mul sigma Dbl.sqrt2).mag)
+    (hcn : (Dbl.mul sigma Dbl.sqrt2).neg = false)
+    (ignore : Bool) (places : Nat) (u v a b : Dbl) (hu0 : Dbl.zero ≤ u) (huv : u ≤ v) (hv1 : v ≤ Dbl.one)
+    (ha : finishD false ignore places L U (rawGaussianD mean sigma (erfinv (argD u))) = .ok a)
+    (hb : finishD false ignore places L U (rawGaussianD mean sigma (erfinv (argD v))) = .ok b) : a ≤ b := by
+  obtain ⟨h1, h2, h3⟩ := argD_monotone u v hu0 huv hv1
+  have hz := herf _ _ h2 h1 h3
+  exact finishD_monotone false ignore places L U _ _ a b
+    (rawGaussianD_monotone mean sigma _ _ hm hc hc0 hcn hz) ha hb
+
+/-- `UniformPrior.value_for` on doubles, end to end (`NormalMessage(0, 1).value_for` → `ndtr` →
+`t * (U - L) + L` → limit gate → `round` → clamp): non-decreasing in the unit value on `[0, 1]`, the only
+hypotheses being that scipy's `erfinv` (on `[-1, 1]`) and `ndtr` are non-decreasing. -/
+theorem uniform_value_for_monotone_on_doubles (erfinv ndtr : Dbl → Dbl)
+    (herf : ∀ x y, Dbl.neg' Dbl.one ≤ x → x ≤ y → y ≤ Dbl.one → erfinv x ≤ erfinv y)
+    (hndtr : ∀ x y, x ≤ y → ndtr x ≤ ndtr y)
+    (L U : Dbl) (hL : L.isFinite = true) (hU : U.isFinite = true) (hLU : L < U)
+    (hw : (Dbl.sub U L).isFinite = true)
+    (ignore : Bool) (places : Nat) (u v a b : Dbl) (hu0 : Dbl.zero ≤ u) (huv : u ≤ v) (hv1 : v ≤ Dbl.one)
+    (ha : finishD true ignore places L U
+      (rawUniformD (ndtr (rawGaussianD Dbl.zero Dbl.one (erfinv (argD u)))) L U) = .ok a)
+    (hb : finishD true ignore places L U
+      (rawUniformD (ndtr (rawGaussianD Dbl.zero Dbl.one (erfinv (argD v)))) L U) = .ok b) : a ≤ b := by
+  obtain ⟨h1, h2, h3⟩ := argD_monotone u v hu0 huv hv1
+  have hz := herf _ _ h2 h1 h3
+  have hg := rawGaussianD_monotone Dbl.zero Dbl.one _ _ (by decide +kernel) (by decide +kernel)
+    (by decide +kernel) (by decide +kernel) hz
+  exact finishD_monotone true ignore places L U _ _ a b
+    (rawUniformD_monotone L U _ _ hL hU hLU hw (hndtr _ _ hg)) ha hb
+
+/-- `LogGaussianPrior.value_for` on doubles, end to end: non-decreasing in the unit value on `[0, 1]` given
+that scipy's `erfinv` (on `[-1, 1]`) and numpy's `exp` are non-decreasing. -/
+theorem logGaussian_value_for_monotone_on_doubles (erfinv exp : Dbl → Dbl)
+    (herf : ∀ x y, Dbl.neg' Dbl.one ≤ x → x ≤ y → y ≤ Dbl.one → erfinv x ≤ erfinv y)
+    (hexp : ∀ x y, x ≤ y → exp x ≤ exp y)
+    (mean sigma L U : Dbl) (hm : mean.isFinite = true)
+    (hc : (Dbl.mul sigma Dbl.sqrt2).isFinite = true) (hc0 : 0 < (Dbl.mul sigma Dbl.sqrt2).mag)
+    (hcn : (Dbl.mul sigma Dbl.sqrt2).neg = false)
+    (ignore : Bool) (places : Nat) (u v a b : Dbl) (hu0 : Dbl.zero ≤ u) (huv : u ≤ v) (hv1 : v ≤ Dbl.one)
+    (ha : finishD false ignore places L U (exp (rawGaussianD mean sigma (erfinv (argD u)))) = .ok a)
+    (hb : finishD false ignore places L U (exp (rawGaussianD mean sigma (erfinv (argD v)))) = .ok b) :
+    a ≤ b := by
+  obtain ⟨h1, h2, h3⟩ := argD_monotone u v hu0 huv hv1
+  have hz := herf _ _ h2 h1 h3
+  exact finishD_monotone false ignore places L U _ _ a b
+    (hexp _ _ (rawGaussianD_monotone mean sigma _ _ hm hc hc0 hcn hz)) ha hb
+
+/-- `LogUniformPrior.value_for` on doubles, end to end (`… → ndtr → t * scale + shift → 10 ** x → gate`,
+`scale = log10(U / L)`, `shift = log10 L` as numpy computed them in the constructor): non-decreasing in the
+unit value on `[0, 1]` for a finite positive scale and a finite shift, given that `erfinv`, `ndtr` and
+`10 ** x` are non-decreasing. (A ratio `U / L` that overflows makes the scale infinite - known finding
+`C02-loguniform-ratio-overflow` - and is excluded by `hs`.) -/
+theorem logUniform_value_for_monotone_on_doubles (erfinv ndtr pow10 : Dbl → Dbl)
+    (herf : ∀ x y, Dbl.neg' Dbl.one ≤ x → x ≤ y → y ≤ Dbl.one → erfinv x ≤ erfinv y)
+    (hndtr : ∀ x y, x ≤ y → ndtr x ≤ ndtr y) (hpow : ∀ x y, x ≤ y → pow10 x ≤ pow10 y)
+    (scale shift L U : Dbl) (hs : scale.isFinite = true) (hs0 : 0 < scale.mag) (hsn : scale.neg = false)
+    (hsh : shift.isFinite = true)
+    (ignore : Bool) (places : Nat) (u v a b : Dbl) (hu0 : Dbl.zero ≤ u) (huv : u ≤ v) (hv1 : v ≤ Dbl.one)
+    (ha : finishD false ignore places L U (pow10 (Dbl.add (Dbl.mul
+      (ndtr (rawGaussianD Dbl.zero Dbl.one (erfinv (argD u)))) scale) shift)) = .ok a)
+    (hb : finishD false ignore places L U (pow10 (Dbl.add (Dbl.mul
+      (ndtr (rawGaussianD Dbl.zero Dbl.one (erfinv (argD v)))) scale) shift)) = .ok b) : a ≤ b := by
+  obtain ⟨h1, h2, h3⟩ := argD_monotone u v hu0 huv hv1
+  have hz := herf _ _ h2 h1 h3
+  have hg := rawGaussianD_monotone Dbl.zero Dbl.one _ _ (by decide +kernel) (by decide +kernel)
+    (by decide +kernel) (by decide +kernel) hz
+  have hm := Dbl.mul_pos_right_mono scale _ _ ((Dbl.finite_iff _).mp hs) hs0 hsn (hndtr _ _ hg)
+  exact finishD_monotone false ignore places L U _ _ a b
+    (hpow _ _ (Dbl.add_mono_left _ _ shift hsh hm)) ha hb
+
+/-- Conversion to the nearest double fixes the doubles: the exact value of a finite double converts back to
+its own bit pattern (so `x + 0`, `x * 1`, … introduce no error in the model, as in IEEE arithmetic). -/
+theorem double_conversion_fixes_doubles (m : Nat) (h : m < infMag) :
+    nearestBits (Dbl.magVal m) (2 ^ 1074) = m :=
+  Dbl.nearestBits_magVal m h
+
+/-- The lower limit never trips for the uniform prior on doubles: for every `t ≥ 0` (the range of `ndtr`)
+`t * (U - L) + L ≥ L`. -/
+theorem uniform_lower_end_in_limits_on_doubles (L U t : Dbl) (hL : L.isFinite = true)
+    (hU : U.isFinite = true) (hLU : L < U) (hw : (Dbl.sub U L).isFinite = true) (ht : Dbl.zero ≤ t) :
+    L ≤ rawUniformD t L U := by
+  obtain ⟨wn, w0⟩ := Dbl.sub_pos L U hL hU hLU
+  have hwm := (Dbl.finite_iff _).mp hw
+  have h1 := Dbl.mul_pos_right_mono _ Dbl.zero t hwm w0 wn ht
+  have e : Dbl.mul Dbl.zero (Dbl.sub U L) = Dbl.zero := by
+    rw [Dbl.mul_pos_right_form _ Dbl.zero hwm w0 wn (by decide +kernel)]
+    have := (Dbl.mulMag_spec (Dbl.sub U L).mag).2.1
+    show (⟨false, Dbl.mulMag (Dbl.sub U L).mag 0⟩ : Dbl) = ⟨false, 0⟩
+    rw [this]
+  rw [e] at h1
+  have h2 := Dbl.add_mono_left _ _ L hL h1
+  have k : (Dbl.add Dbl.zero L).key = L.key := by
+    rw [Dbl.add_comm]; exact Dbl.add_zero_key L hL
+  have nL : L.isNaN = false := (Dbl.isNaN_false_iff L).mpr (by have := (Dbl.finite_iff L).mp hL; omega)
+  have h3 : L ≤ Dbl.add Dbl.zero L := ⟨nL, h2.1, by rw [k]; exact Int.le_refl _⟩
+  exact Dbl.le_trans _ _ _ h3 h2
+
+/-- `-534.9102058632687`, `-236.83708131075005` -/
+def eL : Dbl := Dbl.ofBits 0xC080B7481A02FAEF
+def eU : Dbl := Dbl.ofBits 0xC06D9AC95EBEB875
+
+/-- The upper end is different (unchanged code, recorded as known finding `C16-prior-unit-end-outside-limits`, root
+cause here): at `t = 1` the arithmetic `1 * (U - L) + L` can land one ulp above `U`, so
+`UniformPrior(-534.9102058632687, -236.83708131075005).value_for(1.0)` raises the limit exception instead of
+returning the upper limit - evaluated in the exact IEEE model. The property allows the exception; an
+in-limits theorem for the upper end on doubles is therefore not available. -/
+theorem uniform_upper_end_limit_witness :
+    eL < eU ∧ (Dbl.sub eU eL).isFinite = true ∧ eU < rawUniformD Dbl.one eL eU ∧
+    finishD true false 14 eL eU (rawUniformD Dbl.one eL eU) = .limit := by
+  decide +kernel
+
+/-- `Prior.random` on doubles: the unit value it maps (`random.uniform(max(lo, a), min(hi, b))`, i.e.
+`x + (y - x) * r` in IEEE arithmetic) is never below the requested lower unit limit `lo` nor below the
+prior's lower unit limit `a`, for unit limits and requested interval inside `[0, 1]` that meet, and every
+`r ∈ [0, 1]`. (The upper end is not guaranteed by `random.uniform`, as its documentation says.) -/
+theorem random_unit_not_below_lower_on_doubles (lo hi a b r : Dbl)
+    (h0lo : Dbl.zero ≤ lo) (h0a : Dbl.zero ≤ a) (hb1 : b ≤ Dbl.one) (hhi1 : hi ≤ Dbl.one)
+    (hab : a ≤ b) (hlohi : lo ≤ hi) (hlob : lo ≤ b) (hahi : a ≤ hi)
+    (hr0 : Dbl.zero ≤ r) (hr1 : r ≤ Dbl.one) :
+    lo ≤ randomUnitD lo hi a b r ∧ a ≤ randomUnitD lo hi a b r := by
+  have f0 : Dbl.zero.isFinite = true := by decide +kernel
+  have f1 : Dbl.one.isFinite = true := by decide +kernel
+  have e1 : Dbl.add Dbl.one (Dbl.neg' Dbl.zero) = Dbl.one := by decide +kernel
+  have hr := Dbl.finite_of_between r _ _ hr0 hr1 f0 f1
+  -- the core: for x ≤ y inside [0, 1]
+  have core : ∀ x y : Dbl, Dbl.zero ≤ x → x ≤ y → y ≤ Dbl.one →
+      x ≤ Dbl.add x (Dbl.mul (Dbl.sub y x) r) := by
+    intro x y h0x hxy hy1
+    have fx := Dbl.finite_of_between x _ _ h0x (Dbl.le_trans _ _ _ hxy hy1) f0 f1
+    have d0 := Dbl.sub_nonneg x y fx hxy
+    have d1 : Dbl.sub y x ≤ Dbl.one := by
+      have s1 := Dbl.add_mono_left y Dbl.one (Dbl.neg' x) fx hy1
+      have s2 := Dbl.add_mono_right Dbl.one _ _ f1 (Dbl.neg_anti _ _ h0x)
+      rw [e1] at s2
+      exact Dbl.le_trans _ _ _ s1 s2
+    exact Dbl.uniform_ge_lower x y r fx hxy (Dbl.finite_of_between _ _ _ d0 d1 f0 f1) hr hr0
+  have ha := hab.1
+  have hl := hlohi.1
+  unfold randomUnitD randomUnit
+  simp only [GT.gt]
+  have conv : ∀ x y : Dbl, (x + (y - x) * r : Dbl) = Dbl.add x (Dbl.mul (Dbl.sub y x) r) := fun _ _ => rfl
+  rw [conv]
+  by_cases c1 : lo < a <;> by_cases c2 : b < hi <;> simp only [c1, c2, if_true, if_false]
+  · have h := core a b h0a hab hb1
+    exact ⟨Dbl.le_trans _ _ _ ⟨c1.1, c1.2.1, by have := c1.2.2; omega⟩ h, h⟩
+  · have h := core a hi h0a hahi hhi1
+    exact ⟨Dbl.le_trans _ _ _ ⟨c1.1, c1.2.1, by have := c1.2.2; omega⟩ h, h⟩
+  · have h := core lo b h0lo hlob hb1
+    have hal : a ≤ lo := ⟨ha, hl, by
+      have : ¬ (lo.key < a.key) := fun hh => c1 ⟨hl, ha, hh⟩
+      omega⟩
+    exact ⟨h, Dbl.le_trans _ _ _ hal h⟩
+  · have h := core lo hi h0lo hlohi hhi1
+    have hal : a ≤ lo := ⟨ha, hl, by
+      have : ¬ (lo.key < a.key) := fun hh => c1 ⟨hl, ha, hh⟩
+      omega⟩
+    exact ⟨h, Dbl.le_trans _ _ _ hal h⟩
+
+/-- non-vacuity: unit limits of a Gaussian prior 2σ .. 3σ above the mean, `r = 0.75` -/
+example : Dbl.ofBits 0x3FEF4672B7A7B1E0 ≤ randomUnitD Dbl.zero Dbl.one (Dbl.ofBits 0x3FEF4672B7A7B1E0)
+    (Dbl.ofBits 0x3FEFF4F0E2A9C1B4) (Dbl.ofBits 0x3FE8000000000000) :=
+  (random_unit_not_below_lower_on_doubles _ _ _ _ _ (by decide +kernel) (by decide +kernel) (by decide +kernel)
+    (by decide +kernel) (by decide +kernel) (by decide +kernel) (by decide +kernel) (by decide +kernel)
+    (by decide +kernel) (by decide +kernel)).2
+
+/-- the arithmetic the model computes is Python's: `1 - 2.0 * (1.0 - 0.3)`, `0.25 * (0.7 - 0.2) + 0.2`,
+`1.5 + (2.0 * sqrt(2) * 0.75)` -/
+example : argD (Dbl.ofBits 0x3FD3333333333333) = Dbl.ofBits 0xBFD9999999999998 := by decide +kernel
+example : rawUniformD (Dbl.ofBits 0x3FD0000000000000) (Dbl.ofBits 0x3FC999999999999A)
+    (Dbl.ofBits 0x3FE6666666666666) = Dbl.ofBits 0x3FD4CCCCCCCCCCCD := by decide +kernel
+example : rawGaussianD (Dbl.ofBits 0x3FF8000000000000) (Dbl.ofBits 0x4000000000000000)
+    (Dbl.ofBits 0x3FE8000000000000) = Dbl.ofBits 0x400CF876CCDF6CDA := by decide +kernel
+/-- non-vacuity: the hypotheses of the end-to-end statement are met (identity in place of the special
+functions, `UniformPrior(0.2, 0.7)` at units 0.5 ≤ 0.6), and both values are returned -/
+example (a b : Dbl)
+    (ha : finishD true false 15 (Dbl.ofBits 0x3FC999999999999A) (Dbl.ofBits 0x3FE6666666666666)
+      (rawUniformD (id (rawGaussianD Dbl.zero Dbl.one (id (argD (Dbl.ofBits 0x3FE0000000000000)))))
+        (Dbl.ofBits 0x3FC999999999999A) (Dbl.ofBits 0x3FE6666666666666)) = .ok a)
+    (hb : finishD true false 15 (Dbl.ofBits 0x3FC999999999999A) (Dbl.ofBits 0x3FE6666666666666)
+      (rawUniformD (id (rawGaussianD Dbl.zero Dbl.one (id (argD (Dbl.ofBits 0x3FE3333333333333)))))
+        (Dbl.ofBits 0x3FC999999999999A) (Dbl.ofBits 0x3FE6666666666666)) = .ok b) : a ≤ b :=
+  uniform_value_for_monotone_on_doubles id id (fun _ _ _ h _ => h) (fun _ _ h => h)
+    (Dbl.ofBits 0x3FC999999999999A) (Dbl.ofBits 0x3FE6666666666666) (by decide +kernel) (by decide +kernel)
+    (by decide +kernel) (by decide +kernel) false 15 (Dbl.ofBits 0x3FE0000000000000)
+    (Dbl.ofBits 0x3FE3333333333333) a b (by decide +kernel) (by decide +kernel) (by decide +kernel) ha hb
+
+example :
+    (match finishD true false 15 (Dbl.ofBits 0x3FC999999999999A) (Dbl.ofBits 0x3FE6666666666666)
+      (rawUniformD (rawGaussianD Dbl.zero Dbl.one (argD (Dbl.ofBits 0x3FE0000000000000)))
+        (Dbl.ofBits 0x3FC999999999999A) (Dbl.ofBits 0x3FE6666666666666)) with
+      | .ok v => v.toBits == 0x3FC999999999999A | .limit => false) = true ∧
+    (match finishD true false 15 (Dbl.ofBits 0x3FC999999999999A) (Dbl.ofBits 0x3FE6666666666666)
+      (rawUniformD (rawGaussianD Dbl.zero Dbl.one (argD (Dbl.ofBits 0x3FE3333333333333)))
+        (Dbl.ofBits 0x3FC999999999999A) (Dbl.ofBits 0x3FE6666666666666)) with
+      | .ok _ => true | .limit => false) = true := by decide +kernel
 
 end AF.C02
